@@ -310,3 +310,80 @@ def public_span_attr_value(cps, k, legacy):
 
 def public_bs4_attr_value(cps, k, where):
     return _public_value(text_of(cps), KEYS[k], where == 1, "styling" if where < 2 else "p")
+
+
+# --- class names (style ids) and language codes are arbitrary text as well ------------------------------------------
+def id_lang_value(cps: list[int], where: int, legacy: bool) -> str:
+    """
+    pre: _vals(cps, 1, 2) and 0 <= where <= 1 and all(c != 38 and c != 60 for c in cps)
+    post: _ == ""
+    """
+    # '&' and '<' in a class name / language code: known finding C07-id-lang-unescaped (see id_lang_amp_lt)
+    return _id_lang(cps, where, legacy)
+
+
+def id_lang_amp_lt(amp: bool, where: int, legacy: bool) -> str:
+    """
+    pre: 0 <= where <= 1
+    post: _ == ""
+    """
+    return _id_lang([38 if amp else 60], where, legacy)
+
+
+def _id_lang(cps, where, legacy):
+    v = "k" + text_of(cps)
+    if v.strip() != v or " " in v:
+        return ""  # a style attribute is a space separated list of ids: ids with blanks are not expressible
+    if where == 0:
+        cs = CaptionSet({"en": CaptionList([Caption(1000000, 2000000, [CaptionNode.create_text("x")], style={"class": v})])},
+                        styles={v: {"color": "red"}})
+    else:
+        cs = CaptionSet({v: CaptionList([Caption(1000000, 2000000, [CaptionNode.create_text("x")])])})
+    holder = []
+
+    def run():
+        orig = dfxp_soup
+
+        def factory(markup, features=None):
+            s = orig()
+            holder.append(s)
+            return s
+        db.BeautifulSoup = dx.BeautifulSoup = factory
+        return (LegacyDFXPWriter() if legacy else DFXPWriter()).write(cs)
+    _with_fake(run)
+    soup = holder[-1]
+    tags = soup.find_all("style") + soup.find_all("p") + soup.find_all("div") + soup.find_all("tt")
+    for t in tags:
+        for name, val in t.attrs.items():
+            if isinstance(val, str) and not _attr_value_ok(val, None):
+                return "attribute value handed to the serialiser is not well-formed XML (" + name + ")"
+    if where == 0:
+        ids = [_decode(s.attrs.get("xml:id")) for s in soup.find_all("style")]
+        ref = soup.find_all("p")[0].attrs.get("style")
+        if ref is None or ids.count(_decode(ref)) != 1 or _decode(ref) != v:
+            return "style reference does not resolve to the class"
+    else:
+        langs = [d.attrs.get("xml:lang") for d in soup.find_all("div")]
+        if len(langs) != 1 or _decode(langs[0]) != v:
+            return "language code changed"
+    return ""
+
+
+def public_id_lang_amp_lt(amp, where, legacy):
+    return public_id_lang_value([38 if amp else 60], where, legacy)
+
+
+def public_id_lang_value(cps, where, legacy):
+    from lxml import etree
+    v = "k" + text_of(cps)
+    if where == 0:
+        cs = CaptionSet({"en": CaptionList([Caption(1000000, 2000000, [CaptionNode.create_text("x")], style={"class": v})])},
+                        styles={v: {"color": "red"}})
+    else:
+        cs = CaptionSet({v: CaptionList([Caption(1000000, 2000000, [CaptionNode.create_text("x")])])})
+    out = (LegacyDFXPWriter() if legacy else DFXPWriter()).write(cs)
+    try:
+        etree.fromstring(out.encode("utf-8"))
+    except etree.XMLSyntaxError as e:
+        return f"{'class name' if where == 0 else 'language code'} {v!r}: output is not well-formed XML ({e})"
+    return ""
